@@ -112,7 +112,7 @@ def validate(batch, timeout=1800):
         r = tlc.run("PyTrace", "PyTrace.cfg", env={"TRACE_FILE": path}, timeout=timeout)
     finally:
         os.unlink(path)
-    out = {t[1]: t[2] for t in r.by_tag("VERDICT")}
+    out = {t[1]: json.loads(t[2]) for t in r.by_tag("VERDICT")}
     if len(out) != len(batch):
         raise RuntimeError("PyTrace: %d verdicts for %d observations" % (len(out), len(batch)))
     return out, r
